@@ -326,8 +326,92 @@ def check_object(obj, case: dict, how: str = "text") -> Optional[C.Failing]:
         d = canon.diff(c1, canon.canon(o3)) if not isinstance(o3, dict) else "decoder returned a dict"
         if d:
             return C.Failing(sig_of(d, "json", c1), f"{type(obj).__name__} via encoder/decoder classes: {d[:200]}", case, d)
+        f = subclass_roundtrip(obj, c1, case, how)
+        if f:
+            return f
+        f = failed_write_then_reuse(obj, c1, case)
+        if f:
+            return f
     except Exception as e:
         return C.Failing(f"json:roundtrip:raises:{type(e).__name__}", f"{type(obj).__name__}: {e!r}"[:300], case)
+    return None
+
+
+def reclass_tree(obj):
+    """every referable of the tree becomes an instance of a fresh application-defined subclass of its class; returns the undo list"""
+    from basyx.aas import model
+    touched = []
+
+    def walk(o):
+        if isinstance(o, model.Referable):
+            try:
+                c = o.__class__
+                o.__class__ = type("App" + c.__name__, (c,), {})
+                touched.append((o, c))
+            except TypeError:
+                pass
+            if isinstance(o, model.UniqueIdShortNamespace):
+                for ch in o:
+                    walk(ch)
+    walk(obj)
+    return touched
+
+
+def subclass_roundtrip(obj, c1, case: dict, how: str) -> Optional[C.Failing]:
+    """(round 6) an application derives its own classes from the metamodel classes (the readers support that: `object_class`);
+    a store of such instances holds the same model: written and read back it is that model"""
+    from basyx.aas import model
+    from vf import canon
+    touched = reclass_tree(obj)
+    try:
+        objs = list(roundtrip_store(model.DictObjectStore([obj]), how))
+    except Exception as e:
+        return C.Failing(f"json:roundtrip:subclass-instances:raises:{type(e).__name__}", f"writing/reading a store of instances of application-defined "
+                         f"subclasses ({type(obj).__name__}) raised {e!r}"[:300], case)
+    finally:
+        for o, c in touched:
+            o.__class__ = c
+    if len(objs) != 1:
+        return C.Failing("json:roundtrip:subclass-instances:identifiables", f"a store with one instance of a subclass of {type(obj).__name__} is read back "
+                         f"as {len(objs)} objects", case)
+    d = canon.diff(c1, canon.canon(objs[0]))
+    if d:
+        return C.Failing("json:roundtrip:subclass-instances:" + sig_of(d, "json", c1).split(":", 2)[-1], f"instances of application-defined subclasses, "
+                         f"{type(obj).__name__} via {how} stream: {d[:200]}", case, d)
+    return None
+
+
+_BAD: list = []
+
+
+def failed_write_then_reuse(obj, c1, case: dict) -> Optional[C.Failing]:
+    """(round 6) a write that fails half-way (an object the encoder rejects comes second) must leave the CALLER's stream alone:
+    after the exception - and a garbage collection - the same stream takes the valid store and yields it again"""
+    import gc
+    from basyx.aas import model
+    from basyx.aas.adapter.json import write_aas_json_file, read_aas_json_file
+    from vf import canon
+    import dateutil.relativedelta as rd
+    bad = model.Submodel("urn:vf:rejected", [model.Property("d", model.datatypes.Duration, rd.relativedelta(months=1, days=-1))])
+    for carrier in ("binary", "text"):
+        buf = io.BytesIO() if carrier == "binary" else io.StringIO()
+        try:
+            write_aas_json_file(buf, model.DictObjectStore([obj, bad]))
+            return None                      # the encoder took it: nothing to observe here
+        except Exception:
+            pass
+        gc.collect()
+        try:
+            buf.seek(0); buf.truncate()
+            write_aas_json_file(buf, model.DictObjectStore([obj]))
+            buf.seek(0)
+            objs = list(read_aas_json_file(buf, failsafe=False))
+        except Exception as e:
+            return C.Failing(f"json:roundtrip:stream-unusable-after-failed-write:{carrier}:{type(e).__name__}", f"after a write that raised half-way, the "
+                             f"caller's {carrier} stream no longer takes a valid store: {e!r}"[:300], case)
+        d = canon.diff(c1, canon.canon(objs[0])) if len(objs) == 1 else "count"
+        if d:
+            return C.Failing(f"json:roundtrip:after-failed-write:{carrier}", f"{type(obj).__name__} written to a {carrier} stream after a failed write: {d[:200]}", case, d)
     return None
 
 
